@@ -585,6 +585,74 @@ def memo_key(v):
 _NOHOME = object()
 
 
+class _DefaultDict(dict):
+    """collections.defaultdict with one of the builtin factories: a missing key read with d[k] is created"""
+
+    def __init__(self, factory):
+        super().__init__()
+        self.factory = factory
+
+    def __missing__(self, k):
+        if self.factory is None:
+            raise KeyError(k)
+        v = {"list": list, "dict": dict, "set": set, "int": lambda: Poly.const(0)}[self.factory]()
+        self[k] = v
+        return v
+
+
+class _ChainMap(dict):
+    """collections.ChainMap over live mappings: reads search the maps in order, writes go to the first one"""
+
+    def __init__(self, *maps):
+        super().__init__()
+        self.maps = list(maps) or [{}]
+
+    def _merged(self):
+        out = {}
+        for m_ in reversed(self.maps):
+            out.update(m_)
+        return out
+
+    def __contains__(self, k):
+        return any(k in m_ for m_ in self.maps)
+
+    def __getitem__(self, k):
+        for m_ in self.maps:
+            if k in m_:
+                return m_[k]
+        raise KeyError(k)
+
+    def get(self, k, d=None):
+        return self[k] if k in self else d
+
+    def __setitem__(self, k, v):
+        self.maps[0][k] = v
+
+    def __delitem__(self, k):
+        del self.maps[0][k]
+
+    def pop(self, k, *d):
+        return self.maps[0].pop(k, *d)
+
+    def __iter__(self):
+        return iter(self._merged())
+
+    def __len__(self):
+        return len(self._merged())
+
+    def keys(self):
+        return self._merged().keys()
+
+    def values(self):
+        return self._merged().values()
+
+    def items(self):
+        return self._merged().items()
+
+    def __bool__(self):
+        return any(self.maps)
+
+
 def _is_generator(fnode):
     def walk(n):
         for c in ast.iter_child_nodes(n):
@@ -1031,6 +1099,8 @@ class Interp:
                 return _arith(sym, a, b)
         if isinstance(a, (list, tuple)) and isinstance(b, (list, tuple)) and isinstance(op, ast.Add):
             return tuple(a) + tuple(b) if isinstance(a, tuple) and isinstance(b, tuple) else list(a) + list(b)
+        if isinstance(op, ast.Div) and isinstance(a, Obj) and a.name == "path" and ".joinpath" in self.externals:
+            return self.externals[".joinpath"](a, [b], {})  # pathlib: `base / part` is base.joinpath(part)
         if a is SHAPE or b is SHAPE:
             return SHAPE
         if isinstance(a, str) and isinstance(b, str) and isinstance(op, ast.Add):
@@ -1653,6 +1723,16 @@ class Interp:
         ev = self.eval
         if name == "deepcopy" and args:
             return _deepcopy_value(ev(args[0]))
+        if name == "defaultdict" and "defaultdict" not in self.env and len(args) <= 1 and not kw:
+            fac_ = args[0].id if args and isinstance(args[0], ast.Name) and args[0].id in ("list", "dict", "set", "int") and args[0].id not in self.env else (None if not args or (isinstance(args[0], ast.Constant) and args[0].value is None) else "?")
+            if fac_ == "?":
+                raise Undecided("defaultdict with a factory other than list / dict / set / int")
+            return _DefaultDict(fac_)
+        if name == "ChainMap" and "ChainMap" not in self.env and not kw:
+            maps_ = [ev(a_) for a_ in args]
+            if all(isinstance(m_, dict) for m_ in maps_):
+                return _ChainMap(*maps_)
+            raise Undecided("ChainMap over something that is not a mapping")
         if name == "MappingProxyType" and len(args) == 1:
             return ev(args[0])  # a read-only view: reads see the mapping itself
         if name in ELEMENTWISE_IDENTITY:
